@@ -67,6 +67,7 @@ def gen_program(rng, nvars=None):
 class ProgramRun(GraphRun):
     """GraphRun whose distribution nodes may be attached to Vars with flags, and whose
     builder may get user-supplied total nodes."""
+    none_str = "None"     # (in these traces None is an ordinary value of a node, spelled like Python spells it)
 
     def __init__(self, plan, user=None, atoms=("a0", "b0")):
         self.user = user or {}
